@@ -10,7 +10,7 @@ EntrySeqs == {<<>>} \cup {<< <<k, v>> >> : k \in Keys, v \in Keys}
              \cup {<< <<<<97>>, <<120>>>>, <<<<98>>, <<>>>> >>, << <<<<98>>, <<>>>>, <<<<97>>, <<120>>>> >>}
 Bodies == {<<>>, <<0>>, <<255>>, <<0, 255>>}
 BadStatus == {0, 201, 65535}
-BadVersions == {0, 2, 256}
+BadVersions == {0, 2, 256, 257, 513, 32769, 65281, 65535}    \* incl. versions whose low byte is 1
 
 Reqs == {[route |-> r, entries |-> e, body |-> b] : r \in Routes, e \in EntrySeqs, b \in Bodies}
 Resps == {[status |-> s, entries |-> e, body |-> b] : s \in ValidStatus, e \in EntrySeqs, b \in Bodies}
